@@ -119,6 +119,8 @@ type lsPkg struct {
 	lockSet   map[string]bool              // all mutex field names of this package
 	wgs       map[string]map[string]bool   // struct name -> sync.WaitGroup fields
 	chans     map[string]map[string]bool   // struct name -> channel fields
+	loose     map[string]map[string]string // owner (target) struct name -> map/slice field that is NOT tracked -> "map"|"slice"
+	looseSet  map[string]bool
 }
 
 type lsType struct {
@@ -195,10 +197,21 @@ type lsMember struct {
 }
 type lsLaunch struct { // a `go` statement
 	unit, by string   // the code unit it starts, the code unit that executes it
+	key      string   // the key of the code unit it starts
 	ctor     bool     // executed by a constructor-like function (no receiver): its early returns hand out no object
 	conds    []string // the conditions it sits under
 	exits    []string // the return statements of the launcher that lie before it
 	pos      string
+}
+type lsUse struct { // a use of an untracked map/slice field of an owner type
+	typ, field, fkind string
+	kind              string // read | write | mutate | escape
+	unit, who, pos    string
+	ctor              bool
+}
+type lsShared struct {
+	typ, field, fkind string
+	entries, sites    []string
 }
 type lsCover struct{ group, target, where string } // a unit the group covers may acquire the lock / wait for the group `target`
 type lsOut struct {
@@ -212,6 +225,8 @@ type lsOut struct {
 	members   []lsMember
 	covers    []lsCover
 	launches  []lsLaunch
+	uses      []lsUse
+	shared    []lsShared
 }
 
 func lsAnalyze(module string, targets []lsTarget, srcs map[string]map[string]string) (*lsOut, error) {
@@ -224,7 +239,8 @@ func lsAnalyze(module string, targets []lsTarget, srcs map[string]map[string]str
 	for _, d := range dirs {
 		p := &lsPkg{dir: d, fset: token.NewFileSet(), types: map[string]ast.Expr{}, funcs: map[string]*ast.FuncDecl{},
 			imports: map[string]string{}, vars: map[string]*lsType{}, locks: map[string]map[string]string{}, tracked: map[string]map[string]bool{},
-			fieldSet: map[string]bool{}, lockSet: map[string]bool{}, wgs: map[string]map[string]bool{}, chans: map[string]map[string]bool{}}
+			fieldSet: map[string]bool{}, lockSet: map[string]bool{}, wgs: map[string]map[string]bool{}, chans: map[string]map[string]bool{},
+			loose: map[string]map[string]string{}, looseSet: map[string]bool{}}
 		var names []string
 		for n := range srcs[d] {
 			names = append(names, n)
@@ -351,6 +367,22 @@ func lsAnalyze(module string, targets []lsTarget, srcs map[string]map[string]str
 			p.fieldSet[f] = true
 			out.tracked = append(out.tracked, fmt.Sprintf("(%s, %s, %s)", coqStr(p.name+"."+t.typ), coqStr(f), coqStr(a.kindOf(&lsType{pkg: p, e: ft}))))
 		}
+		// every other map- or slice-typed field of an owner type is watched for becoming shared state
+		for _, fl := range st.Fields.List {
+			k := a.kindOf(&lsType{pkg: p, e: fl.Type})
+			if k != "map" && k != "slice" {
+				continue
+			}
+			for _, nm := range fl.Names {
+				if !p.tracked[t.typ][nm.Name] {
+					if p.loose[t.typ] == nil {
+						p.loose[t.typ] = map[string]string{}
+					}
+					p.loose[t.typ][nm.Name] = k
+					p.looseSet[nm.Name] = true
+				}
+			}
+		}
 		var ls []string
 		for l := range p.locks[t.typ] {
 			ls = append(ls, l)
@@ -386,6 +418,7 @@ func lsAnalyze(module string, targets []lsTarget, srcs map[string]map[string]str
 		}
 	}
 	a.coverEdges()
+	a.sharedFields()
 	return a.out, nil
 }
 
@@ -415,6 +448,106 @@ func lsClosure(direct, calls map[string]map[string]bool) map[string]map[string]b
 		}
 	}
 	return r
+}
+
+// Untracked shared state: a map/slice field of an owner type that is not in the table, that is mutated, assigned or
+// handed on somewhere outside a constructor, and whose uses are reachable from two different goroutine entry points (a
+// code unit started by a `go` statement, an exported method or function that is not a constructor).
+func (a *lsAnalysis) sharedFields() {
+	entry := map[string]string{} // unit key -> label
+	for _, l := range a.out.launches {
+		entry[l.key] = "go " + l.unit
+	}
+	for _, p := range a.order {
+		for k, fd := range p.funcs {
+			name := fd.Name.Name
+			if !ast.IsExported(name) || (fd.Recv == nil && strings.HasPrefix(name, "New")) {
+				continue
+			}
+			if fd.Recv != nil {
+				if tn := lsRecvType(fd); tn == "" || !ast.IsExported(tn) {
+					continue
+				}
+			}
+			entry[p.dir+"|"+k] = p.name + "." + k
+		}
+	}
+	reach := map[string]map[string]bool{} // unit -> entry labels that reach it
+	var eks []string
+	for k := range entry {
+		eks = append(eks, k)
+	}
+	sort.Strings(eks)
+	for _, e := range eks {
+		seen := map[string]bool{e: true}
+		q := []string{e}
+		for len(q) > 0 {
+			n := q[0]
+			q = q[1:]
+			if reach[n] == nil {
+				reach[n] = map[string]bool{}
+			}
+			reach[n][entry[e]] = true
+			for c := range a.calls1[n] {
+				if !seen[c] {
+					seen[c] = true
+					q = append(q, c)
+				}
+			}
+		}
+	}
+	type acc struct {
+		fkind   string
+		live    bool
+		entries map[string]bool
+		sites   []string
+	}
+	by := map[string]*acc{}
+	var keys []string
+	for _, u := range a.out.uses {
+		if u.ctor {
+			continue
+		}
+		k := u.typ + "|" + u.field
+		if by[k] == nil {
+			by[k] = &acc{fkind: u.fkind, entries: map[string]bool{}}
+			keys = append(keys, k)
+		}
+		x := by[k]
+		if u.kind != "read" {
+			x.live = true
+		}
+		for e := range reach[u.unit] {
+			x.entries[e] = true
+		}
+		x.sites = append(x.sites, u.pos+" "+u.who+" ("+u.kind+")")
+	}
+	sort.Strings(keys)
+	for _, k := range keys {
+		x := by[k]
+		if os.Getenv("VERIF_LS_VERBOSE") != "" {
+			fmt.Fprintf(os.Stderr, "untracked %s (%s): live=%v entries=%d sites=%v\n", k, x.fkind, x.live, len(x.entries), x.sites)
+		}
+		if !x.live || len(x.entries) < 2 {
+			continue
+		}
+		var es []string
+		for e := range x.entries {
+			es = append(es, e)
+		}
+		sort.Strings(es)
+		// entry points of different kinds first: a goroutine and an exported method say more than two methods
+		sort.SliceStable(es, func(i, j int) bool { return strings.HasPrefix(es[i], "go ") && !strings.HasPrefix(es[j], "go ") })
+		if len(es) > 4 {
+			es = append(es[:4], fmt.Sprintf("... %d more", len(es)-4))
+		}
+		sites := x.sites
+		if len(sites) > 8 {
+			sites = append(sites[:8:8], fmt.Sprintf("... %d more", len(x.sites)-8))
+		}
+		i := strings.Index(k, "|")
+		a.out.shared = append(a.out.shared, lsShared{k[:i], k[i+1:], x.fkind, es, sites})
+	}
 }
 
 // the call chain from a unit to a function that does `what` directly (breadth first), for the reader
@@ -1362,6 +1495,74 @@ func (w *lsWalker) checkLeaks(p token.Pos, what string) {
 	}
 }
 
+// a selector of a map/slice field of an owner type that the table does not track
+func (w *lsWalker) looseSel(e ast.Expr) (typ, field, fkind string, ok bool) {
+	for {
+		switch x := e.(type) {
+		case *ast.ParenExpr:
+			e = x.X
+			continue
+		case *ast.UnaryExpr:
+			if x.Op == token.AND {
+				e = x.X
+				continue
+			}
+		}
+		break
+	}
+	se, ok2 := e.(*ast.SelectorExpr)
+	if !ok2 {
+		return
+	}
+	any := false
+	for _, p := range w.a.order {
+		any = any || p.looseSet[se.Sel.Name]
+	}
+	if !any {
+		return
+	}
+	p, tn := w.a.namedOf(w.typeOf(se.X))
+	if p == nil || p.loose[tn] == nil || p.loose[tn][se.Sel.Name] == "" {
+		return
+	}
+	return p.name + "." + tn, se.Sel.Name, p.loose[tn][se.Sel.Name], true
+}
+
+// record a use of kind `kind` when e is such a selector; reports whether it was
+func (w *lsWalker) noteLoose(e ast.Expr, kind string) bool {
+	typ, field, fk, ok := w.looseSel(e)
+	if !ok {
+		return false
+	}
+	if w.a.pass == 2 {
+		ps, _ := w.pos(e.Pos())
+		w.a.out.uses = append(w.a.out.uses, lsUse{typ: typ, field: field, fkind: fk, kind: kind, unit: w.unit, who: w.who(), pos: ps,
+			ctor: w.unit == w.top.key && w.recv == "" && strings.HasPrefix(w.top.label[strings.LastIndex(w.top.label, ".")+1:], "New")})
+	}
+	return true
+}
+
+// read e; when e itself is an untracked map/slice field the use is of kind `kind` (escape, mutate) rather than a plain read
+func (w *lsWalker) rdAs(e ast.Expr, kind string) {
+	if typ, _, _, ok := w.looseSel(e); ok && typ != "" {
+		w.noteLoose(e, kind)
+		for {
+			switch x := e.(type) {
+			case *ast.ParenExpr:
+				e = x.X
+				continue
+			case *ast.UnaryExpr:
+				e = x.X
+				continue
+			}
+			break
+		}
+		w.rd(e.(*ast.SelectorExpr).X)
+		return
+	}
+	w.rd(e)
+}
+
 // who is executing: the function, or the `go func` literal in it
 func (w *lsWalker) who() string {
 	if w.unit != w.top.key {
@@ -1479,9 +1680,9 @@ func (w *lsWalker) condText(e ast.Expr) string {
 }
 
 // a `go` statement starts `unit`
-func (w *lsWalker) launch(unit string, p token.Pos) {
+func (w *lsWalker) launch(unit, key string, p token.Pos) {
 	ps, _ := w.pos(p)
-	w.a.out.launches = append(w.a.out.launches, lsLaunch{unit: unit, by: w.a.labels[w.unit], ctor: w.unit == w.top.key && w.recv == "" && len(w.stack) == 0,
+	w.a.out.launches = append(w.a.out.launches, lsLaunch{unit: unit, key: key, by: w.a.labels[w.unit], ctor: w.unit == w.top.key && w.recv == "" && len(w.stack) == 0,
 		conds: append([]string{}, w.conds...), exits: lsReturnsBefore(w.pkg.fset, w.body, p), pos: ps})
 }
 
@@ -1498,7 +1699,7 @@ func (w *lsWalker) goLit(f *ast.FuncLit, c *ast.CallExpr) {
 	w.a.labels[unit] = "goroutine " + w.top.label + w.label + " " + ps
 	cw := &lsWalker{a: w.a, pkg: w.pkg, top: w.top, label: w.label, env: map[string]*lsType{}, alias: map[string]*lsLoc{},
 		stack: w.stack, unit: unit, body: f.Body, recv: w.recv}
-	w.launch(w.a.labels[unit], f.Pos())
+	w.launch(w.a.labels[unit], unit, f.Pos())
 	for k, v := range w.env {
 		cw.env[k] = v
 	}
@@ -1658,7 +1859,7 @@ func (w *lsWalker) stmt(s ast.Stmt) {
 		} else {
 			if k, _, _ := w.callee(st.Call); k != "" {
 				if p2 := w.a.pkgs[k[:strings.Index(k, "|")]]; p2 != nil {
-					w.launch(p2.name+"."+k[strings.Index(k, "|")+1:], st.Pos())
+					w.launch(p2.name+"."+k[strings.Index(k, "|")+1:], k, st.Pos())
 				}
 			}
 			w.deferredOrGo(st.Call) // go f(...): f runs as a thread of its own; nothing of it is charged to this function
@@ -1673,7 +1874,7 @@ func (w *lsWalker) stmt(s ast.Stmt) {
 			w.member(g, st.Pos()) // a send releases a receiver
 		}
 		w.rd(st.Chan)
-		w.rd(st.Value)
+		w.rdAs(st.Value, "escape")
 	case *ast.DeclStmt:
 		if gd, ok := st.Decl.(*ast.GenDecl); ok {
 			for _, sp := range gd.Specs {
@@ -1695,7 +1896,7 @@ func (w *lsWalker) stmt(s ast.Stmt) {
 		}
 	case *ast.ReturnStmt:
 		for _, r := range st.Results {
-			w.rd(r)
+			w.rdAs(r, "escape")
 			if l := w.aliasOf(r); l != nil && len(w.stack) == 0 {
 				w.emit(l, "Cont", "KEsc", r.Pos()) // a reference into the guarded structure leaves the function
 			}
@@ -1961,7 +2162,7 @@ func (w *lsWalker) bind(nm *ast.Ident, declared ast.Expr, rhs ast.Expr, rt *lsTy
 
 func (w *lsWalker) assign(st *ast.AssignStmt) {
 	for _, r := range st.Rhs {
-		w.rd(r)
+		w.rdAs(r, "escape") // a second name for the map / the slice
 	}
 	if st.Tok != token.ASSIGN && st.Tok != token.DEFINE {
 		for _, l := range st.Lhs {
@@ -2064,6 +2265,10 @@ func (w *lsWalker) wr(e ast.Expr) {
 			w.giveUp("mutex field assigned", x.Pos())
 			return
 		}
+		if w.noteLoose(x, "write") {
+			w.rd(x.X)
+			return
+		}
 		if l, isField := w.baseLoc(x.X); l != nil {
 			if isField {
 				w.emit(l, "Slot", "KRd", x.Pos())
@@ -2081,7 +2286,7 @@ func (w *lsWalker) wr(e ast.Expr) {
 			w.emit(l, "Cont", "KWr", x.Pos())
 			return
 		}
-		w.rd(x.X)
+		w.rdAs(x.X, "mutate")
 	case *ast.StarExpr:
 		if l, isField := w.baseLoc(x.X); l != nil {
 			if isField {
@@ -2124,6 +2329,7 @@ func (w *lsWalker) rd(e ast.Expr) {
 			w.giveUp("mutex field used other than by Lock/Unlock/RLock/RUnlock statements", x.Pos())
 			return
 		}
+		w.noteLoose(x, "read")
 		if p, tn := w.a.namedOf(w.typeOf(x.X)); p != nil && p.wgs[tn][x.Sel.Name] {
 			w.giveUp("WaitGroup field used other than by Add/Done/Wait calls", x.Pos())
 			w.top.report = true
@@ -2179,10 +2385,10 @@ func (w *lsWalker) rd(e ast.Expr) {
 		if _, ok := x.Key.(*ast.Ident); !ok {
 			w.rd(x.Key)
 		}
-		w.rd(x.Value)
+		w.rdAs(x.Value, "escape") // stored in another structure
 	case *ast.CompositeLit:
 		for _, el := range x.Elts {
-			w.rd(el)
+			w.rdAs(el, "escape")
 		}
 	case *ast.TypeAssertExpr:
 		w.rd(x.X)
@@ -2225,6 +2431,10 @@ func (w *lsWalker) call(c *ast.CallExpr) {
 			}
 		case "len", "cap":
 			if len(c.Args) == 1 {
+				if _, _, _, ok := w.looseSel(c.Args[0]); ok {
+					w.rdAs(c.Args[0], "read")
+					return
+				}
 				if l, isField := w.baseLoc(c.Args[0]); l != nil {
 					k := w.a.kindOf(w.typeOf(c.Args[0]))
 					if isField {
@@ -2239,7 +2449,7 @@ func (w *lsWalker) call(c *ast.CallExpr) {
 		case "append":
 			if len(c.Args) > 0 {
 				if !w.useBase(c.Args[0], "KWr") { // may write the shared backing array
-					w.rd(c.Args[0])
+					w.rdAs(c.Args[0], "mutate")
 				}
 				for _, a := range c.Args[1:] {
 					w.rd(a)
@@ -2249,7 +2459,7 @@ func (w *lsWalker) call(c *ast.CallExpr) {
 		case "delete":
 			if len(c.Args) == 2 {
 				if !w.useBase(c.Args[0], "KWr") {
-					w.rd(c.Args[0])
+					w.rdAs(c.Args[0], "mutate")
 				}
 				w.rd(c.Args[1])
 				return
@@ -2257,7 +2467,7 @@ func (w *lsWalker) call(c *ast.CallExpr) {
 		case "copy":
 			if len(c.Args) == 2 {
 				if !w.useBase(c.Args[0], "KWr") {
-					w.rd(c.Args[0])
+					w.rdAs(c.Args[0], "mutate")
 				}
 				if !w.useBase(c.Args[1], "KRd") {
 					w.rd(c.Args[1])
@@ -2284,7 +2494,7 @@ func (w *lsWalker) call(c *ast.CallExpr) {
 	key, fd, p2 := w.callee(c)
 	var passed []int
 	for i, a := range c.Args {
-		w.rd(a)
+		w.rdAs(a, "escape") // handed to a callee
 		if l := w.aliasOf(a); l != nil {
 			passed = append(passed, i)
 			if fd == nil || p2 != w.pkg {
@@ -2497,6 +2707,13 @@ func (o *lsOut) coq() string {
 		lns = append(lns, fmt.Sprintf("(%s, %s, %v, %s, %s, %s)", coqStr(l.unit), coqStr(l.by), l.ctor, coqStrList(l.conds), coqStrList(l.exits), coqStr(l.pos)))
 	}
 	b.WriteString("Definition launches : list (string * string * bool * list string * list string * string) := [\n  " + strings.Join(lns, ";\n  ") + "].\n\n")
+	b.WriteString("(* map / slice fields of the owner types that are not in the table, are mutated, assigned or handed on outside a constructor,\n")
+	b.WriteString("   and are used by code reachable from two different goroutine entry points: (type, field, kind, entry points, use sites) *)\n")
+	var shs []string
+	for _, x := range o.shared {
+		shs = append(shs, fmt.Sprintf("(%s, %s, %s, %s, %s)", coqStr(x.typ), coqStr(x.field), coqStr(x.fkind), coqStrList(x.entries), coqStrList(x.sites)))
+	}
+	b.WriteString("Definition shared_untracked : list (string * string * string * list string * list string) := [\n  " + strings.Join(shs, ";\n  ") + "].\n\n")
 	b.WriteString("(* (group, lock a covered unit may acquire | group a covered unit may wait for, the unit and the call chain) *)\n")
 	var cs []string
 	for _, c := range o.covers {
